@@ -117,7 +117,7 @@ func newRouter(config RouterConfig, logger watermill.LoggerAdapter) *Router {
 		runningHandlersWg:     &sync.WaitGroup{},
 		runningHandlersWgLock: &sync.Mutex{},
 
-		handlerAdded: make(chan struct{}),
+		handlerAdded: make(chan struct{}, 1),
 
 		middlewaresLock: &sync.RWMutex{},
 		handlersLock:    &sync.RWMutex{},
